@@ -15,6 +15,10 @@ def run(ctx):
         # that it is the only way an accepted socket is left open at return (LeakOnlyBehindExit)
         system.engine_design(ctx)
     system.engine_traces(ctx, t, "shutdown")
+    t = system.record(ctx, "rotate-fail", test="TestVerifRotateFail")
+    system.validate(ctx, t, ["TrFd"], "Rotate failing on a later address")
+    t = system.record(ctx, "client", test="TestVerifClient")
+    system.validate(ctx, t, ["TrFd"], "client engine (Dial / Enroll), descriptor ledger")
     ctx.assumptions += system.SYS_ASSUME
     return vlib.finish(ctx, "model_checking",
-                       "one case = one engine life (6 configurations {LT, ET, ET+chunk} x {tcp, unix} per round, random loops / reuse-port / buffer sizes) with 6-11 scripted connections each: segmentations (1 byte, exactly the read buffer, bursts, data+FIN), consumption policies (Read/Next/Peek+Discard/Discard/WriteTo, lazy, peek-only); every event validated by TrFd.tla (use only owned descriptors, close owned once, fresh descriptors unowned, foreign descriptors untouched, nothing owned after Run returns)")
+                       "one case = one engine life (6 configurations {LT, ET, ET+chunk} x {tcp, unix} per round, random loops / reuse-port / buffer sizes) with 6-11 scripted connections each, plus 6 client-engine lives (gnet.Client dialling / enrolling connections to listening peers): segmentations (1 byte, exactly the read buffer, bursts, data+FIN), consumption policies (Read/Next/Peek+Discard/Discard/WriteTo, lazy, peek-only); every event validated by TrFd.tla (use only owned descriptors, close owned once, fresh descriptors unowned, foreign descriptors untouched, nothing owned after Run returns)")
